@@ -130,6 +130,7 @@ func (tnc *TNC) DialBandwidth(targetcall string, bw Bandwidth, connectRequests i
 		ctrlIn:     tnc.in,
 		dataIn:     tnc.dataIn,
 		eofChan:    make(chan struct{}),
+		tncDone:    tnc.done,
 		isTCP:      tnc.isTCP,
 		onClose:    defers,
 	}
